@@ -48,6 +48,15 @@ def pool(tier, seed):
             inner = b2(a, b)
             out.append((f"{n1}(l={n2})", b1(inner, c)))
             out.append((f"{n1}(r={n2})", b1(c, inner)))
+    # children whose own first and last operands are composite: their text begins and ends with the operands' parentheses
+    ends = [(p.Sum((a, b)), p.Sum((b, c))), (-3, -2), (p.Sum((a, b)), -3), (p.Product((a, b)), p.Sum((a, c)))]
+    for n1, b1 in BIN.items():
+        for n2, b2 in BIN.items():
+            for e1, e2 in ends:
+                inner = b2(e1, e2)
+                out.append((f"{n1}(l={n2}(composite ends))", b1(inner, c)))
+                out.append((f"{n1}(r={n2}(composite ends))", b1(c, inner)))
+                out.append((f"{n1}3({n2}(composite ends))", p.Product((c, inner, 2)) if n1 == "Product" else p.Sum((c, inner, 2)) if n1 == "Sum" else b1(b1(c, inner), 2)))
     un = {"BitwiseNot": p.BitwiseNot, "Neg": lambda x: p.Product((-1, x))}
     for n1, b1 in BIN.items():
         for nu, bu in un.items():
@@ -163,6 +172,9 @@ def same(got, want):
         return False
     if got[0] == "val" and want[0] == "val" and type(got[1]) is float and type(want[1]) is float:
         return math.isclose(got[1], want[1], rel_tol=1e-12, abs_tol=1e-300) or (got[1] != got[1] and want[1] != want[1])
+    if got[0] == "val" and want[0] == "val" and type(got[1]) is complex and type(want[1]) is complex:
+        import cmath
+        return cmath.isclose(got[1], want[1], rel_tol=1e-12, abs_tol=1e-300)
     return outcome.equivalent(got, want)
 
 
